@@ -291,7 +291,35 @@ def check_dagger_semantics(ctx, rule: str):
     hermitian_flag_obligations(ctx, rule)
 
 
+R7 = "C07-D7 dagger-of-power"
+
+
+def check_power_dagger(ctx):
+    """(g**e)^dagger = (g^dagger)**e holds for integer e, but for a fractional exponent the principal branch
+    is not conjugation-symmetric on the negative real axis: for a gate with eigenvalue -1 (X, Y, Z, H, CNOT...)
+    conj((-1)**0.5) = -i while (conj(-1))**0.5 = +i. Re-associating the dagger of a Power into the power of the
+    dagger is therefore only sound under an integrality test of the exponent; otherwise the dagger must be
+    taken of the Power's own matrix (Dagger(self))."""
+    repo = ctx.repo
+    m = repo.module(GATES).classes["Power"].methods["dagger"]
+    ctx.analysed(m)
+    rets = returned_exprs(m.node)
+    own = {"Dagger(self)"}
+    reassoc = {"self.wrapped_gate.dagger.power(self.exponent)", "Power(self.wrapped_gate.dagger, self.exponent)"}
+    guarded = any(isinstance(n, (ast.If, ast.IfExp)) and ("is_integer" in norm(n.test) or "isinstance(self.exponent, int)" in norm(n.test) or "% 1" in norm(n.test) or "int(self.exponent) == self.exponent" in norm(n.test)) for n in ast.walk(m.node))
+    texts = {norm(r) for r in rets}
+    if texts <= own:
+        ctx.ok(R7, m.key + ":fractional-exponent-branch", "dagger of a power is the adjoint of its own matrix", m)
+    elif texts & reassoc and (guarded and texts & own):
+        ctx.ok(R7, m.key + ":fractional-exponent-branch", "re-association into the power of the dagger only for integral exponents", m)
+    elif texts & reassoc:
+        ctx.violation(R7, m.key + ":fractional-exponent-branch", "Power.dagger re-associates (g**e).dagger into (g.dagger)**e for every exponent: for a fractional exponent and a gate with eigenvalue -1 the principal branch is not conjugation-symmetric, so the result's matrix is not the conjugate transpose (X.power(0.5).dagger.matrix == X.power(0.5).matrix)", m)
+    else:
+        ctx.undecided(R7, m.key + ":fractional-exponent-branch", f"unrecognised dagger of a power: {sorted(texts)}", m)
+
+
 def run(ctx):
+    check_power_dagger(ctx)
     check_dagger_semantics(ctx, "C07-D6 dagger-semantics")
     ctx.floor("C07-D6", 12)
     n = check_algebra(ctx)
